@@ -4,16 +4,62 @@ VERIF = os.path.dirname(os.path.dirname(os.path.abspath(__file__)))
 KINDS = [("ds", True, False), ("us", False, False), ("dm", True, True), ("um", False, True)]
 B = {True: "true", False: "false"}
 
-def c01_quick_pick(kn, pre, op, dd):
-    """Thin the quick tier: every (pre, op) cell appears for every dedupe value on at least one
-    directed and one undirected kind; the full product is the thorough tier."""
-    h = (pre * 7 + op * 3 + dd) % 4
-    kinds = ["ds", "us", "dm", "um"]
-    # duplicate-sensitive cells: all dedupe values on the single-edge kinds
-    if (pre, op) in {(2, 0), (2, 1), (6, 8), (6, 3), (4, 2), (2, 12)}:
-        return kn in ("ds", "us") or (dd == 0 and kn == kinds[2 + (pre + op) % 2])
-    # other cells: dedupe is irrelevant to the outcome; rotate kinds and dedupe values
-    return kn == kinds[h]
+OPS = [(2, 0), (0, 2), (2, 2), (0, 1), (2, 3), (3, 2), (3, 3), (3, 4), (1, 0), None, None, None, (2, 0)]
+PRE_EDGES = {0: [], 1: [], 2: [(2, 0)], 3: [(2, 0), (0, 1)], 4: [(2, 2)], 5: [(2, 0)], 6: [(1, 0)]}
+PRE_NODES = {0: [], 1: [2, 0], 2: [2, 0], 3: [2, 0, 1], 4: [2, 0], 5: [2, 0], 6: [2, 0, 1]}
+
+def c01_is_dup(kn, pre, op):
+    if 9 <= op <= 11:
+        return False
+    u, v = OPS[op]
+    return any((a, b) == (u, v) or (kn in ("us", "um") and (b, a) == (u, v)) for (a, b) in PRE_EDGES[pre])
+
+def c01_needs_create(pre, op):
+    if 9 <= op <= 11:
+        return False
+    u, v = OPS[op]
+    return u not in PRE_NODES[pre] or v not in PRE_NODES[pre]
+
+def c01_mm_values(pre, op):
+    """missing-node strategy: concrete (0 = Create, 1 = Error) when the operation names a node that
+    is not in the pre-state, symbolic (2) otherwise."""
+    return (0, 1) if c01_needs_create(pre, op) else (2,)
+
+def c01_cost_class(kn, pre, op, dd, mm=2):
+    """'cheap' (<= ~60 s) or 'heavy' (minutes / > 20 GB), from measurements: on single-edge kinds
+    an operation that stores a *new* pair under dedupe Error/KeepFirst leaves a state whose shape
+    depends on `Result<&Edge, Error>::is_ok()`, which CBMC cannot constant-fold; reading that
+    state back costs minutes. The undirected duplicate self-loop under KeepLast is heavy too."""
+    single = kn in ("ds", "us")
+    if not single:
+        return "cheap"
+    if 9 <= op <= 11:
+        return "cheap"
+    if mm == 1:
+        return "cheap"          # rejected before anything is touched
+    if kn == "us" and (pre, op) == (4, 2):
+        return "heavy"
+    if not c01_is_dup(kn, pre, op) and dd != 2:
+        return "heavy"
+    return "cheap"
+
+def c01_quick_pick(kn, pre, op, dd, mm=2):
+    """Quick tier: every (pre, op) cell of the quick list on the cheap cost class; duplicate cells
+    under all three dedupe strategies on both single-edge kinds; other cells rotate kinds."""
+    if c01_cost_class(kn, pre, op, dd, mm) != "cheap":
+        return False
+    single = kn in ("ds", "us")
+    dup_cells = {(2, 0), (2, 1), (6, 8), (6, 3), (4, 2), (2, 12)}
+    if (pre, op) in dup_cells:
+        if single:
+            return True
+        return dd == 0 and kn == ("dm" if (pre + op) % 2 == 0 else "um")
+    if mm == 1:
+        # rejected-for-missing-node cells: dedupe irrelevant, rotate
+        return dd == (pre + op) % 3 and kn == ["ds", "us", "dm", "um"][(pre + op) % 4]
+    if single:
+        return dd == 2 and kn == ("ds" if (pre + op) % 2 == 0 else "us")
+    return dd == (pre + op) % 3 and kn == ("dm" if (pre + op) % 2 == 1 else "um")
 
 def c01_cases():
     """(name, rust call, tier, covers, what)"""
@@ -38,11 +84,15 @@ def c01_cases():
                 if pre in (3, 6) and op == 7:
                     continue   # would need 5 nodes (model bound MAXN = 4)
                 for dd in range(3):
-                    tier = "quick" if ((pre, op) in quick and (dd + pre + op + len(kn)) % 1 == 0 and c01_quick_pick(kn, pre, op, dd)) else "thorough"
-                    name = "c01_step_%s_p%d_o%02d_d%d" % (kn, pre, op, dd)
-                    call = "c01_step(%s, %s, %d, %d, %d)" % (B[d], B[m], pre, op, dd)
-                    covers = ["op accepted"] if op not in (2, 6) else []
-                    what = "kind=%s pre-state #%d, operation #%d, dedupe=%d; 8 policy combinations (missing-node x self_loops x self-loop strategy), weights and attributes symbolic" % (kn, pre, op, dd)
+                  for mm in c01_mm_values(pre, op):
+                    tier = "quick" if ((pre, op) in quick and c01_quick_pick(kn, pre, op, dd, mm)) else ("thorough" if c01_cost_class(kn, pre, op, dd, mm) == "cheap" else "full")
+                    name = "c01_step_%s_p%d_o%02d_d%d_m%d" % (kn, pre, op, dd, mm)
+                    call = "c01_step(%s, %s, %d, %d, %d, %d)" % (B[d], B[m], pre, op, dd, mm)
+                    if mm == 1 or (c01_is_dup(kn, pre, op) and dd == 0 and kn in ("ds", "us")):
+                        covers = ["op rejected"]
+                    else:
+                        covers = ["op accepted"]
+                    what = "kind=%s pre-state #%d, operation #%d, dedupe=%d, missing-node strategy %s; remaining policy fields (self_loops x self-loop strategy%s), weights and attributes symbolic" % (kn, pre, op, dd, ["Create", "Error", "symbolic"][mm], " x missing-node" if mm == 2 else "")
                     out.append((name, call, tier, covers, what))
     # public getters + full O(n^2) representation invariant after a concrete-policy operation
     for (kn, d, m) in KINDS:
@@ -59,17 +109,27 @@ def c01_cases():
             if tier == "quick" and kn in ("dm",):
                 tier = "thorough"
             name = "c01_batch_%s_p%d_o%02d_o%02d_%s" % (kn, pre, o1, o2, "edges" if which == 0 else "tuples")
-            call = "c01_batch(%s, %s, %d, %d, %d, %d, %d)" % (B[d], B[m], pre, o1, o2, which, (pre + o1 + o2) % 3)
-            out.append((name, call, tier, ["op accepted", "op rejected"],
+            call = "c01_batch(%s, %s, %d, %d, %d, %d, %d, %d)" % (B[d], B[m], pre, o1, o2, which, 2 if kn in ("ds", "us") else (pre + o1 + o2) % 3, 1 if (c01_needs_create(pre, o1) or c01_needs_create(pre, o2)) else 2)
+            out.append((name, call, tier, ["op accepted"],
                         "kind=%s pre-state #%d, batch of two edges (#%d,#%d) via %s; policies symbolic" % (kn, pre, o1, o2, "add_edges" if which == 0 else "add_edge_tuples")))
     for (kn, d, m) in KINDS:
         for dd in range(3):
             for create in (True, False):
-                tier = "quick" if (kn in ("us", "ds") and create) else "thorough"
+                tier = "full"   # measured: three policy-dependent add_edge calls from empty = 1.2 M steps, > 24 GB
                 name = "c01_new_%s_d%d_%s" % (kn, dd, "create" if create else "error")
                 call = "c01_from_nodes_and_edges(%s, %s, %d, %s)" % (B[d], B[m], dd, B[create])
                 out.append((name, call, tier, [], "new_from_nodes_and_edges, kind=%s dedupe=%d create=%s; weights/attributes symbolic" % (kn, dd, create)))
     return out
+
+def c03_quick_pick(kn, pre, op, dd):
+    single = kn in ("ds", "us")
+    if not single:
+        return dd == 0
+    if pre == 3:
+        return False
+    # measured > 3 min each: fresh edge on a directed single-edge graph under Error/KeepFirst,
+    # duplicate undirected self-loop
+    return c01_cost_class(kn, pre, op, dd) == "cheap"
 
 def c03_cases():
     out = []
@@ -80,10 +140,107 @@ def c03_cases():
                 if pre == 5 and not m:
                     continue
                 for dd in range(3):
-                    tier = "quick" if ((pre, op) in quick and (kn in ("ds", "us") or dd == 0)) else "thorough"
+                    mm = 0 if c01_needs_create(pre, op) else 2
+                    tier = "quick" if ((pre, op) in quick and c03_quick_pick(kn, pre, op, dd)) else ("thorough" if c01_cost_class(kn, pre, op, dd) == "cheap" else "full")
                     name = "c03_step_%s_p%d_o%02d_d%d" % (kn, pre, op, dd)
-                    call = "c03_step(%s, %s, %d, %d, %d)" % (B[d], B[m], pre, op, dd)
+                    call = "c03_step(%s, %s, %d, %d, %d, %d)" % (B[d], B[m], pre, op, dd, mm)
                     out.append((name, call, tier, [], "kind=%s pre-state #%d then add_edge #%d, dedupe=%d; 8 remaining policy combinations and f64 weights symbolic (uniformly weighted or unweighted)" % (kn, pre, op, dd)))
+    return out
+
+def c02_admissible(d, m, s):
+    if s == 2 and not m:
+        return False
+    if s == 3 and not d and not m:
+        return False
+    return True
+
+C02_GROUPS = [
+    ("pairs", "c02_pairs", [], "get_edge / get_edges for all 16 ordered pairs over {2,0,1,3}"),
+    ("nodeedges", "c02_node_edges", ["reached end"], "get_edges_for_node / get_in_edges_for_node / get_out_edges_for_node for every name incl. an absent one"),
+    ("setedges", "c02_nodes_edges", ["reached end"], "get_edges_for_nodes / in / out for a 2-element set and a set with an absent name"),
+    ("neigh", "c02_neighbours", ["reached end"], "successor / predecessor / neighbour queries, name lists and name-keyed maps for every name"),
+    ("nodes", "c02_nodes_bfs", ["reached end"], "has_node(s), name<->position round trip, attributes by position"),
+    ("build", "c02_build_matches_history", ["reached end"], "build_direct vs real add_node/add_edge history: same abstraction, full representation invariant on both"),
+]
+
+def c02_cases():
+    out = []
+    quick = {("pairs", 1), ("pairs", 2), ("pairs", 3), ("nodeedges", 1), ("nodeedges", 2), ("setedges", 5), ("neigh", 1), ("neigh", 5),
+             ("nodes", 0), ("nodes", 5), ("build", 1), ("build", 2), ("build", 5), ("build", 0)}
+    for (kn, d, m) in KINDS:
+        for s in range(6):
+            if not c02_admissible(d, m, s):
+                continue
+            for (gname, fn, covers, what) in C02_GROUPS:
+                tier = "quick" if (gname, s) in quick else "thorough"
+                if gname == "build" and kn in ("ds", "us") and len({0: 2, 1: 2, 2: 3, 3: 2, 4: 0, 5: 3}[s] * [0]) >= 3:
+                    tier = "full"     # three real add_edge calls on a single-edge kind: measured > 24 GB
+                if gname == "build" and kn == "us" and tier == "quick" and s != 1:
+                    tier = "thorough"
+                if gname == "neigh" and s == 5 and kn != "ds":
+                    tier = "thorough" if tier == "quick" else tier
+                name = "c02_%s_%s_s%d" % (gname, kn, s)
+                call = "%s(%s, %s, %d)" % (fn, B[d], B[m], s)
+                out.append((name, call, tier, covers, "kind=%s shape #%d: %s; weights and attributes symbolic" % (kn, s, what)))
+            for start in range(3):
+                tier = "quick" if (s == 5 and start == 0 and kn == "ds") or (s == 1 and start == 2 and kn == "dm") else ("thorough" if d else "full")
+                out.append(("c02_bfs_%s_s%d_n%d" % (kn, s, start), "c02_bfs(%s, %s, %d, %d)" % (B[d], B[m], s, start), tier, ["reached end"],
+                            "kind=%s shape #%d: breadth_first_search from the node at position %d vs the reachability closure" % (kn, s, start)))
+    return out
+
+def c09_cases():
+    out = []
+    for (kn, d, m) in KINDS:
+        for s in range(6):
+            if not c02_admissible(d, m, s):
+                continue
+            for (gname, fn) in [("counts", "c09_counts"), ("weighted", "c09_weighted")]:
+                tier = "quick" if s in (1, 2, 5) or (s == 3 and gname == "counts") else "thorough"
+                out.append(("c09_%s_%s_s%d" % (gname, kn, s), "%s(%s, %s, %d)" % (fn, B[d], B[m], s), tier, ["reached end"],
+                            "kind=%s shape #%d: %s; integer weights 1..8 symbolic" % (kn, s, "node/edge counts, size, degrees, handshake identities" if gname == "counts" else "weighted degrees, density, degree centrality")))
+    return out
+
+def c10_cases():
+    out = []
+    # topology symbolic (mask = -1): one query over all 16 undirected / 128 directed topologies
+    out.append(("c10_und_sym_single", "c10_undirected(-1, false)", "quick", ["three singleton components", "one component", "two components"], "undirected single-edge graphs on 3 nodes, all 16 topologies (3 pairs + a self-loop) symbolic: connected_components, number_of_, node_connected_component, WrongMethod guards"))
+    out.append(("c10_und_sym_multi", "c10_undirected(-1, true)", "thorough", ["one component"], "as above on the multi-edge kind"))
+    out.append(("c10_weak_sym", "c10_directed(-1, false, 0)", "quick", ["two components"], "directed graphs on 3 nodes, all 128 topologies (6 ordered pairs + a self-loop) symbolic: weakly_connected_components + WrongMethod guards"))
+    out.append(("c10_strong_sym", "c10_directed(-1, false, 1)", "quick", ["one component", "two components"], "directed graphs on 3 nodes, all 128 topologies symbolic: strongly_connected_components"))
+    for d in (True, False):
+        for k in (1, 2, 3):
+            out.append(("c10_bfsparts_%s_k%d_sym" % ("d" if d else "u", k), "c10_bfs_partitions(%s, -1, %d)" % (B[d], k), "quick" if k == 2 else "thorough", ["reached end"],
+                        "%s graphs on 3 nodes, all topologies symbolic: bfs_equal_size_partitions(%d)" % ("directed" if d else "undirected", k)))
+    # a few constant topologies (cheap cross-check of the symbolic encoding)
+    for mask in (0b0000011, 0b0111111, 0b1000101):
+        out.append(("c10_strong_m%d" % mask, "c10_directed(%d, false, 1)" % mask, "thorough", [], "directed topology mask %d: strongly_connected_components" % mask))
+    return out
+
+def c15_cases():
+    out = []
+    # subsets over [2,0,1,3] as bitmasks: {2,0}=0b0011, {0,1,3}=0b1110, {1}=0b0100, all=0b0111, {}=0, {2,1}=0b0101
+    for (kn, d, m) in KINDS:
+        for s in (0, 1, 3, 5):
+            if not c02_admissible(d, m, s):
+                continue
+            for set_ in (0b0011, 0b1110, 0b0100, 0b0111, 0b0000, 0b0101):
+                quick = (s, set_) in {(0, 0b0011), (1, 0b1110), (3, 0b0011), (0, 0b0100)} and kn in ("dm", "us")
+                heavy = (kn in ("ds", "us")) and s == 5 and set_ == 0b0111
+                tier = "quick" if quick else ("full" if heavy else "thorough")
+                out.append(("c15_sub_%s_s%d_x%d" % (kn, s, set_), "c15_subgraph(%s, %s, %d, %d)" % (B[d], B[m], s, set_), tier, ["reached end"],
+                            "kind=%s shape #%d: get_subgraph(S) for the concrete S mask %s; weights/attributes symbolic" % (kn, s, bin(set_))))
+        for s in (0, 1, 3):
+            if not c02_admissible(d, m, s):
+                continue
+            tier = "quick" if (s in (1, 3) and kn in ("dm", "ds")) or (s == 0 and kn == "us") else "thorough"
+            out.append(("c15_rev_%s_s%d" % (kn, s), "c15_reverse_reweight(%s, %s, %d)" % (B[d], B[m], s), tier, ["reached end"],
+                        "kind=%s shape #%d: reverse (twice = identity), set_all_edge_weights(w) for arbitrary f64 w; WrongMethod guards" % (kn, s)))
+        for s in (2, 3, 0):
+            if not c02_admissible(d, m, s):
+                continue
+            tier = "quick" if (s == 2 and m) or (s == 0 and kn == "ds") else "thorough"
+            out.append(("c15_collapse_%s_s%d" % (kn, s), "c15_collapse(%s, %s, %d)" % (B[d], B[m], s), tier, ["reached end"] + (["a group was collapsed"] if (m and s in (2,)) or (kn == "um" and s == 3) else []),
+                        "kind=%s shape #%d: to_single_edges (integer weights 1..8, exact sums); WrongMethod guard" % (kn, s)))
     return out
 
 def emit():
@@ -91,6 +248,22 @@ def emit():
     for (name, call, tier, covers, what) in c01_cases() + c03_cases():
         lines.append("crate::vharness! { unwind = 7; fn %s() { %s } }\n" % (name, call))
     open(os.path.join(VERIF, "harness", "gen_creation_ac.rs"), "w").write("".join(lines))
+    lines = ["// GENERATED by /verif/vlib/gen.py -- do not edit by hand.\n"]
+    for (name, call, tier, covers, what) in c02_cases():
+        lines.append("crate::vharness! { unwind = 9; fn %s() { %s } }\n" % (name, call))
+    open(os.path.join(VERIF, "harness", "gen_query_ac.rs"), "w").write("".join(lines))
+    lines = ["// GENERATED by /verif/vlib/gen.py -- do not edit by hand.\n"]
+    for (name, call, tier, covers, what) in c09_cases():
+        lines.append("crate::vharness! { unwind = 9; fn %s() { %s } }\n" % (name, call))
+    open(os.path.join(VERIF, "harness", "gen_degree_ac.rs"), "w").write("".join(lines))
+    lines = ["// GENERATED by /verif/vlib/gen.py -- do not edit by hand.\n"]
+    for (name, call, tier, covers, what) in c10_cases():
+        lines.append("crate::vharness! { unwind = 9; fn %s() { %s } }\n" % (name, call))
+    open(os.path.join(VERIF, "harness", "gen_components_ac.rs"), "w").write("".join(lines))
+    lines = ["// GENERATED by /verif/vlib/gen.py -- do not edit by hand.\n"]
+    for (name, call, tier, covers, what) in c15_cases():
+        lines.append("crate::vharness! { unwind = 9; fn %s() { %s } }\n" % (name, call))
+    open(os.path.join(VERIF, "harness", "gen_convert_ac.rs"), "w").write("".join(lines))
 
 if __name__ == "__main__":
     emit()
